@@ -675,5 +675,27 @@ theorem runET_specOK (root : Nat) (h : List EOp) : specOK (runET root h).2 (runE
   intro k _
   simp only [summ2_eq, beq_self_eq_true, Bool.and_self]
 
+/-! ### 7. leaving the reachable states (harness ops `rawset` / `rawswap` / `rawrank`): private writes into the array,
+    so that `rank` is driven on arrays no history of public calls produces -/
+
+/-- overwrite `forced_efficiency` and `efficiency` of slot `idx` -/
+def rawSet (st : State) (idx : Nat) (forced eff : Int) : State × Err :=
+  match st.kinds[idx]? with
+  | some k => ({ st with kinds := st.kinds.set idx { k with forced := forced, eff := eff } }, .ok)
+  | none => (st, .enoent)
+
+/-- exchange slots `i` and `j` -/
+def rawSwap (st : State) (i j : Nat) : State × Err :=
+  match st.kinds[i]?, st.kinds[j]? with
+  | some a, some b => ({ st with kinds := (st.kinds.set i b).set j a }, .ok)
+  | _, _ => (st, .enoent)
+
+/-- a direct call of `hwloc_internal_cpukinds_rank` under `strat` -/
+def rawRank (strat : Strategy) (st : State) : State := { st with kinds := rank strat st.kinds }
+
+/-- whatever the private writes did, the direct call establishes `Ranked` again -/
+theorem rawRank_ranked (strat : Strategy) (st : State) : Ranked strat (rawRank strat st).kinds :=
+  rank_ranked strat st.kinds
+
 end CpuKinds
 end Hw
